@@ -36,6 +36,9 @@ ShapeOfM(n) ==
     [] n[1] = "For" -> <<"for", ShapeList(n[4])>>
     [] n[1] = "GateDefinition" -> <<"gate", ShapeList(n[5])>>
     [] n[1] = "DefStmt" -> <<"def", ShapeList(n[4])>>
+    [] n[1] = "Switch" -> <<"switch", ShapeList(n[3])>>
+    [] n[1] = "Case" -> <<"case", ShapeList(n[2])>>
+    [] n[1] = "Default" -> <<"default", ShapeList(n[2])>>
     [] n[1] = "Annotated" -> <<"annotated", ShapeOfM(n[2])>>
 ShapeOn(r) == [i \in 1..Len(out) |-> ShapeList(out[i])] = r.shape
 AsgShapeHolds == ~panicked => ShapeOn(Req)
@@ -48,4 +51,12 @@ CaseRec == LET r == Req IN
 Emit == Complete => PrintT(<<"CASE", ToJson(CaseRec)>>)
 (* in simulation mode only long programs are printed *)
 EmitLong == (Complete /\ Len(prog) >= MaxStmts - 1) => PrintT(<<"CASE", ToJson(CaseRec)>>)
+(* the exhaustive (BFS) configurations use a smaller set of modifier sequences; the simulation uses all of them *)
+GateModsSmall == {"none", "pow", "inv+ctrl"}
+(* focus family: only gate definitions and the standard-library include, so that programs in which SEVERAL user *)
+(* gates collide with standard gates (h, x) are enumerated exhaustively (C17 determinism, C09 listing, C07 redeclaration)  *)
+FocusStd == \A i \in 1..Len(prog) : prog[i].op \in {"gate", "close", "std"} /\ (prog[i].op = "gate" => prog[i].ps = <<>> /\ Len(prog[i].qs) = 1)
+(* focus family: switch / case / default with declarations and uses of one name (scoping of case and default blocks, C07) *)
+FocusSwitch == \A i \in 1..Len(prog) : /\ prog[i].op \in {"decl", "use", "switch", "case", "default", "close"}
+                                        /\ (prog[i].op = "decl" => prog[i].ty = "int" /\ prog[i].init.k = "none")
 =============================================================================
